@@ -52,6 +52,23 @@ fn fg_presentation<T: DSym>(ds: &T) -> (usize, Vec<Vec<isize>>) {
     (g.nr_generators(), g.relators.iter().map(|w| w.iter().cloned().collect()).collect())
 }
 
+/// largest k <= kmax for which the enumeration stays below `cap` tables (universe
+/// selection only: keeps the quadratic inequivalence clause affordable)
+fn capped_k(nr_gens: usize, rels: &[Vec<isize>], kmax: usize, cap: usize) -> usize {
+    let r: Vec<FreeWord> = rels.iter().map(|w| fw(w)).collect();
+    let mut k = kmax;
+    while k > 1 {
+        let r2 = r.clone();
+        let n = std::panic::catch_unwind(std::panic::AssertUnwindSafe(|| coset_tables(nr_gens, &r2, k).take(cap + 1).count()))
+            .unwrap_or(0);
+        if n <= cap {
+            break;
+        }
+        k -= 1;
+    }
+    k
+}
+
 fn sym_cases(ctx: &mut Ctx, sym: &str, ks: &[usize], kind: &str) {
     let ds: PartialDSym = sym.parse().expect("hard-coded symbol");
     let (ng, rels) = fg_presentation(&ds);
@@ -175,8 +192,8 @@ fn main() {
                 let t = random_vs(&t, &mut rng, &[1, 1, 2, 3]);
                 let ds = t.to_partial_dsym();
                 let (ng, rels) = fg_presentation(&ds);
-                let kmax = if th { 6 } else { 4 };
-                for k in [kmax - 1, kmax] {
+                let kmax = capped_k(ng, &rels, if th { 6 } else { 4 }, 1500);
+                for k in [kmax.max(2) - 1, kmax] {
                     case_nc(&mut ctx, &format!("rand2d-{i}-n{n}"), ng, &rels, k, "dsym2d");
                 }
             }
@@ -188,8 +205,8 @@ fn main() {
                 let t = random_vs(&t, &mut rng, &[1, 1, 2, 3]);
                 let ds = t.to_partial_dsym();
                 let (ng, rels) = fg_presentation(&ds);
-                let kmax = if th { 6 } else { 4 };
-                for k in [kmax - 1, kmax] {
+                let kmax = capped_k(ng, &rels, if th { 6 } else { 4 }, 1500);
+                for k in [kmax.max(2) - 1, kmax] {
                     case_nc(&mut ctx, &format!("rand3d-{i}-n{n}"), ng, &rels, k, "dsym3d");
                 }
             }
@@ -203,7 +220,7 @@ fn main() {
             case_nc(&mut ctx, "triangle-3-3-4", 2, &tri(3, 3, 4), k, "long-relators");
         }
         let surf = vec![[comm(1, 2), comm(3, 4)].concat()];
-        for k in 1..=(if th { 5 } else { 4 }) {
+        for k in 1..=4 {
             case_nc(&mut ctx, "surface-genus-2", 4, &surf, k, "long-relators");
         }
         let mut rng = ctx.rng(1201);
@@ -217,7 +234,7 @@ fn main() {
                     random_relator(&mut rng, g, len)
                 })
                 .collect();
-            let kmax = if th { 5 } else { 4 };
+            let kmax = capped_k(g, &rels, if th { 5 } else { 4 }, 1500);
             case_nc(&mut ctx, &format!("random-{i}"), g, &rels, kmax, "random-presentation");
         }
     }
